@@ -205,6 +205,11 @@ theorem sunionTail_nf (st : Bool) (d : Bytes) (o : List (Bytes × Nat × List By
 theorem handleSUnion_nf (st : Bool) (c : Ctx) (cmd : List Bytes) : (handleSUnion st c cmd).NoFlushAll := by
   unfold handleSUnion; nf2 <;> exact sunionTail_nf _ _ _
 
+theorem handleSelect_nf (c : Ctx) (cmd : List Bytes) : (handleSelect c cmd).NoFlushAll := by unfold handleSelect; nf
+theorem handleSwapDB_nf (c : Ctx) (cmd : List Bytes) : (handleSwapDB c cmd).NoFlushAll := by unfold handleSwapDB; nf
+theorem handlePing_nf (c : Ctx) (cmd : List Bytes) : (handlePing c cmd).NoFlushAll := by unfold handlePing; nf
+theorem handleEcho_nf (c : Ctx) (cmd : List Bytes) : (handleEcho c cmd).NoFlushAll := by unfold handleEcho; nf
+
 theorem handleFlush_nf (c : Ctx) (cmd : List Bytes) (hn : ¬ eqFold (cmd.headD []) (b "flushall") = true) :
     (handleFlush c cmd).NoFlushAll := by
   unfold handleFlush
@@ -285,7 +290,8 @@ theorem table_noFlushAll : ∀ e ∈ handlerTable, ∀ (c : Ctx) (cmd : List Byt
     fun c cmd _ => handleSInter_nf _ c cmd, fun c cmd _ => handleSInter_nf _ c cmd, fun c cmd _ => handleSInter_nf _ c cmd,
     fun c cmd _ => handleSIsMember_nf c cmd, fun c cmd _ => handleSMembers_nf c cmd, fun c cmd _ => handleSMIsMember_nf c cmd,
     fun c cmd _ => handleSMove_nf c cmd, fun c cmd _ => handleSPop_nf c cmd, fun c cmd _ => handleSRandMember_nf c cmd,
-    fun c cmd _ => handleSRem_nf c cmd, fun c cmd _ => handleSUnion_nf _ c cmd, fun c cmd _ => handleSUnion_nf _ c cmd⟩
+    fun c cmd _ => handleSRem_nf c cmd, fun c cmd _ => handleSUnion_nf _ c cmd, fun c cmd _ => handleSUnion_nf _ c cmd,
+    fun c cmd _ => handleSelect_nf c cmd, fun c cmd _ => handleSwapDB_nf c cmd, fun c cmd _ => handlePing_nf c cmd, fun c cmd _ => handleEcho_nf c cmd⟩
 
 theorem progOf_noFlushAll (c : Ctx) (cmd : List Bytes) (p : Prog Res)
     (h : progOf c cmd = some p) (hn : ¬ eqFold (cmd.headD []) (b "flushall") = true) :
